@@ -104,6 +104,11 @@ def mk_ev(lo, hi, n, m, via=None, plain=False):
             ev = Evolvent(lo_a + 3.0, hi_a + 4.5, n, m)
         else:
             ev = Evolvent(lo_a - 10.0, hi_a + 10.0, n, m)
+        if (h // 7) % 2 == 0:
+            # the object has already answered queries on its FIRST box before it is re-configured
+            mid = (np.array(ev.lowerBoundOfFloatVariables, dtype=np.double) + np.array(ev.upperBoundOfFloatVariables, dtype=np.double)) / 2
+            ev.GetInverseImage(mid + 0.1 * (np.array(ev.upperBoundOfFloatVariables, dtype=np.double) - mid))
+            ev.GetImage(0.7)
         ev.SetBounds(lo_a, hi_a)
     # about 40 % of the objects have already answered queries before the oracle uses them (results must not depend on earlier
     # queries): inverse-image queries with a float array, an INTEGER-typed array, a Python list, and a forward query
